@@ -285,6 +285,8 @@ def check_C07(chk: Check, replay) -> None:
     chk.add_tlc("Stream/MC_Stream.cfg", res)
     from .checks_codec import model_check_encoder_machine
     model_check_encoder_machine(chk)       # AppendOnly, SinkIsPrefix: staged bytes are never visible early
+    from .checks_codec import _contexts
+    _contexts(chk)                         # the same under failed calls before, and two threads in one codec
     n = 4000 if chk.tier == "thorough" else 320
     K = 16
     args = [(os.path.join(chk.scratch, f"stin{i}.json"), i * n // K, (i + 1) * n // K, chk.seed + 1) for i in range(K)]
